@@ -20,6 +20,17 @@ from ..srcmodel import const_str
 P8 = 'pico8.game.formatter.p8'
 
 
+def loop_env(st, env):
+    """environment for analysing one generic iteration of loop `st`: every
+    name the body (or the loop header) assigns is unknown at entry"""
+    killed = set()
+    for n in ast.walk(st):
+        if isinstance(n, ast.Name) and isinstance(n.ctx, (ast.Store,
+                                                          ast.Del)):
+            killed.add(n.id)
+    return {k: v for k, v in env.items() if k not in killed}
+
+
 class Item:
     __slots__ = ('kind', 'value', 'iter', 'var', 'writes', 'node', 'at')
 
@@ -81,7 +92,7 @@ def writer_trace(ctx, qual=P8 + ':P8Formatter.to_file', out_index=2):
                     continue
                 it = sym.S(st.iter, env)
                 tgt = st.target.id if isinstance(st.target, ast.Name) else None
-                benv = {k: v for k, v in env.items() if k != tgt}
+                benv = loop_env(st, env)
                 writes = []
                 for bp in SymBody(ctx, w).run(st.body, benv):
                     ws = [e[1].args[0] for e in bp.events
@@ -220,3 +231,148 @@ def _class_name(ctx, f, e):
     if isinstance(v, ClassRef):
         return v.name
     return None
+
+
+# ------------------------------------------------- raw reader: line identity
+
+def _decoded_arg(e):
+    """str(L, encoding='utf-8') | str(L, 'utf-8') | L.decode('utf-8') -> L"""
+    def is_utf8(c):
+        return isinstance(c, ast.Constant) and isinstance(c.value, str) and \
+            c.value.lower().replace('-', '').replace('_', '') == 'utf8'
+    if isinstance(e, ast.Call) and isinstance(e.func, ast.Name) and \
+            e.func.id == 'str' and e.args:
+        enc = e.args[1] if len(e.args) > 1 else next(
+            (k.value for k in e.keywords if k.arg == 'encoding'), None)
+        if enc is not None and is_utf8(enc):
+            return e.args[0]
+    if isinstance(e, ast.Call) and isinstance(e.func, ast.Attribute) and \
+            e.func.attr == 'decode':
+        enc = e.args[0] if e.args else next(
+            (k.value for k in e.keywords if k.arg == 'encoding'), None)
+        if enc is None or is_utf8(enc):
+            return e.func.value
+    return None
+
+
+def _is_readline(e, stream):
+    return isinstance(e, ast.Call) and isinstance(e.func, ast.Attribute) and \
+        e.func.attr == 'readline' and isinstance(e.func.value, ast.Name) and \
+        e.func.value.id == stream and not e.args
+
+
+def reader_line_flow(ctx, qual=P8 + ':_get_raw_data_from_p8_file'):
+    """every place where the raw .p8 reader hands a line to
+    lua.unicode_to_p8scii, per path of the reading loop:
+    -> (func, [(path condition text, decoded?, line expression, is the
+    stream's own readline() result?, node)])"""
+    f = ctx.model.func(qual)
+    stream = f.params()[0]
+    sym = SymBody(ctx, f, no_inline={'unicode_to_p8scii'})
+    out = []
+
+    def conv_calls(e):
+        for n in ast.walk(e):
+            if isinstance(n, ast.Call) and (
+                    (isinstance(n.func, ast.Attribute) and
+                     n.func.attr == 'unicode_to_p8scii') or
+                    (isinstance(n.func, ast.Name) and
+                     n.func.id == 'unicode_to_p8scii')) and n.args:
+                yield n
+
+    def scan(paths):
+        for p in paths:
+            for ev in p.events:
+                if ev[0] == 'loop' and isinstance(ev[1], (ast.While,
+                                                          ast.For)):
+                    st, env = ev[1], ev[2]
+                    benv = loop_env(st, env)
+                    scan(SymBody(ctx, f, no_inline={'unicode_to_p8scii'})
+                         .run(st.body, benv))
+                    continue
+                exprs = [x for x in ev[1:] if isinstance(x, ast.AST)]
+                for x in exprs:
+                    for c in conv_calls(x):
+                        arg = c.args[0]
+                        L = _decoded_arg(arg)
+                        out.append((p.cond_text(), L is not None,
+                                    L if L is not None else arg,
+                                    L is not None and _is_readline(L, stream),
+                                    ev[-1] if isinstance(ev[-1], ast.AST)
+                                    else f.node))
+                    break
+    scan(sym.run(f.node.body))
+    return f, out
+
+
+def classify_line_source(ctx, f, L):
+    """'same' : L is the line exactly as read from the stream
+       'changed' : L is computed from the line read (witness: the expression)
+       'unknown' : provenance not followed"""
+    stream = f.params()[0]
+    if _is_readline(L, stream):
+        return 'same'
+    reads = [n for n in ast.walk(L) if _is_readline(n, stream)]
+    if reads:
+        return 'changed'
+    if isinstance(L, ast.Name):
+        # a variable every binding of which is a plain read of the stream
+        # (priming read before the loop + re-read at its end)
+        binds = [n for n in ast.walk(f.node) if isinstance(n, ast.Assign)
+                 and any(isinstance(t, ast.Name) and t.id == L.id
+                         for t in n.targets)]
+        others = [n for n in ast.walk(f.node) if isinstance(
+            n, (ast.AugAssign, ast.For, ast.With, ast.NamedExpr)) and any(
+            isinstance(x, ast.Name) and x.id == L.id and
+            isinstance(x.ctx, ast.Store) for x in ast.walk(
+                n.target if hasattr(n, 'target') else n))]
+        if binds and not others:
+            if all(_is_readline(b.value, stream) for b in binds):
+                return 'same'
+            if any(any(_is_readline(x, stream) for x in ast.walk(b.value))
+                   for b in binds):
+                return 'changed'
+        # loop variable of `for L in <generator of lines>(stream)`
+        for n in ast.walk(f.node):
+            if isinstance(n, ast.For) and isinstance(n.target, ast.Name) \
+                    and n.target.id == L.id:
+                it = n.iter
+                if isinstance(it, ast.Name) and it.id == stream:
+                    return 'same'          # iterating the stream itself
+                if isinstance(it, ast.Call):
+                    r = ctx.model.resolve_expr(f.module, it.func)
+                    if r and r[0] == 'func' and it.args and isinstance(
+                            it.args[0], ast.Name) and \
+                            it.args[0].id == stream:
+                        g = r[1]
+                        gs = g.params()[0] if g.params() else None
+                        ys = []
+                        ok = True
+                        for p in SymBody(ctx, g).run(g.node.body):
+                            for ev in p.events:
+                                if ev[0] == 'yield':
+                                    ys.append(ev[1])
+                                elif ev[0] == 'loop':
+                                    st, env = ev[1], ev[2]
+                                    for bp in SymBody(ctx, g).run(
+                                            st.body, loop_env(st, env)):
+                                        ys.extend(e[1] for e in bp.events
+                                                  if e[0] == 'yield')
+                                elif ev[0] == 'yield_from':
+                                    ok = False
+                        if g is f or gs is None:
+                            return 'unknown'
+                        kinds = {classify_line_source(ctx, g, e)
+                                 if e is not None else 'unknown' for e in ys}
+                        if ok and ys and kinds == {'same'}:
+                            return 'same'
+                        if 'changed' in kinds:
+                            return 'changed'
+        return 'unknown'
+    names = {n.id for n in ast.walk(L) if isinstance(n, ast.Name)}
+    if len(names) == 1 and not isinstance(L, ast.Name):
+        inner = classify_line_source(ctx, f, ast.Name(id=names.pop(),
+                                                      ctx=ast.Load()))
+        if inner in ('same', 'changed'):
+            return 'changed'
+    return 'unknown'
